@@ -356,6 +356,10 @@ def check_c17(tier):
     res = run_space(exe, "c17", tier, os.path.join(b.dir, "c17.out"))
     add_violations(rep, res, "C17")
     n, g = eval_consistency(rep, res)
+    # every sequence (nothing merged) of C and C++ writes/reads of one vector and one scalar: what one interface wrote the other must see,
+    # whatever either interface did before
+    res17s = run_space(exe, "c17s", tier, os.path.join(b.dir, "c17s.out"), extra=["--seqdepth", "5" if tier == "thorough" else "4"])
+    add_violations(rep, res17s, "C17")
     # evaluators: every C evaluator symbol x solutions x 3 tuples, bit-identical to the <double> template
     src = os.path.join(VERIF, "src", "e2_cevals.cpp")
     gen = os.path.join(b.dir, "gen")
@@ -370,7 +374,7 @@ def check_c17(tier):
             calls = int(line.split()[1])
     if r.returncode != 0 or calls == 0:
         sys.stderr.write("e2_cevals failed:\n" + r.stdout[-2000:]); raise SystemExit(2)
-    cover(rep, [res], "; C and C++ variants of every operation mixed freely on the double registry")
+    cover(rep, [res, res17s], "; C and C++ variants of every operation mixed freely on the double registry")
     rep.coverage["c_evaluator_symbols"] = len(rows); rep.coverage["c_evaluator_calls"] = calls
     rep.coverage["states"] += calls; rep.coverage["transitions"] += 2 * calls; rep.coverage["traces_validated_against_impl"] += calls
     rep.assumptions += ["C symbols enumerated from the tree's cmasa.cpp definitions; each compared with the C++ template the naming rule masa_eval_<n>d_<name> -> masa_eval_<name><double>(n args) designates"]
